@@ -257,8 +257,11 @@ structure HPath where
   back : String
 deriving DecidableEq, Repr, Inhabited
 
+/-- a host of the haproxy model with its trace. An entry that is not `live` only records failed
+default-backend declarations (negative dependencies of the absent default host). -/
 structure Host where
   name : String
+  live : Bool := false           -- created by `Hosts().AcquireHost`
   paths : List HPath := []
   trace : List Touch := []
 deriving DecidableEq, Repr, Inhabited
@@ -274,33 +277,21 @@ structure St where
   backs : List Back := []
 deriving Repr, Inhabited
 
-def St.trackE (st : St) (a b : Node) : St := { st with tr := track a b st.tr }
-
 def St.findHost (st : St) (h : String) : Option Host := st.hosts.find? (·.name = h)
-def St.hostLive (st : St) (h : String) : Bool := (st.findHost h).isSome
-def St.hostHasPath (st : St) (h path mtch : String) : Bool :=
-  (st.findHost h).any fun x => x.paths.any fun p => p.path = path ∧ p.mtch = mtch
+def St.hostLive (st : St) (h : String) : Bool := (st.findHost h).any (·.live)
 def St.findBack (st : St) (id : String) : Option Back := st.backs.find? (·.id = id)
 def St.backLive (st : St) (id : String) : Bool := (st.findBack id).isSome
 
-def updHost (f : Host → Host) (h : String) : List Host → List Host
-  | [] => [f { name := h }]
-  | x :: l => if x.name = h then f x :: l else x :: updHost f h l
+def Host.hasPath (x : Host) (path mtch : String) : Bool :=
+  x.live && x.paths.any fun p => p.path = path ∧ p.mtch = mtch
 
-def updBack (f : Back → Back) (id : String) : List Back → List Back
-  | [] => [f { id := id }]
-  | x :: l => if x.id = id then f x :: l else x :: updBack f id l
+def setHost (x : Host) : List Host → List Host
+  | [] => [x]
+  | y :: l => if y.name = x.name then x :: l else y :: setHost x l
 
-/-- `Hosts().AcquireHost` -/
-def St.acquireHost (st : St) (h : String) : St :=
-  { st with hosts := updHost id h st.hosts }
-def St.touchHost (st : St) (h : String) (t : Touch) : St :=
-  { st with hosts := updHost (fun x => { x with trace := x.trace ++ [t] }) h st.hosts }
-def St.addHostPath (st : St) (h : String) (p : HPath) : St :=
-  { st with hosts := updHost (fun x => { x with paths := x.paths ++ [p] }) h st.hosts }
-/-- `Backends().AcquireBackend` + the touch -/
-def St.touchBack (st : St) (id : String) (t : Touch) : St :=
-  { st with backs := updBack (fun x => { x with trace := x.trace ++ [t] }) id st.backs }
+def addBackTouch (id : String) (t : Touch) : List Back → List Back
+  | [] => [{ id := id, trace := [t] }]
+  | y :: l => if y.id = id then { y with trace := y.trace ++ [t] } :: l else y :: addBackTouch id t l
 
 /-! ## one ingress, flattened into declarations (processing order of `syncIngressHTTP`) -/
 
@@ -348,7 +339,7 @@ inductive Resolve
   | noSvc
   | noPort (s : Service)
   | ok (s : Service) (target : String)
-deriving Repr
+deriving DecidableEq, Repr
 
 def resolve (w : World) (ns svc port : String) : Resolve :=
   match w.findSvc (ns ++ "/" ++ svc) with
@@ -370,89 +361,131 @@ def secretKey (ns secret : String) : Option String :=
   | [a, n] => if a = "" then some (ns ++ "/" ++ n) else if a = ns then some (a ++ "/" ++ n) else none
   | _ => none
 
-/-- `addEndpoints` in drain-support mode: `GetTerminatingPods` tracks every pod matched by the
-service selector (`app=<service name>`) -/
-def trackPods (w : World) (svcName id : String) (st : St) : St :=
-  if w.drain then
-    (w.pods.filter fun p => lookupKV p.labels "app" == some svcName).foldl
-      (fun st p => st.trackE ⟨.back, id⟩ ⟨.pod, p.key⟩) st
-  else st
+def matchingPods (w : World) (svcName : String) : List Pod :=
+  if w.drain then w.pods.filter fun p => lookupKV p.labels "app" == some svcName else []
 
-def podReads (w : World) (svcName : String) : List (Node × ObjVal) :=
-  if w.drain then
-    (w.pods.filter fun p => lookupKV p.labels "app" == some svcName).map
-      fun p => (⟨.pod, p.key⟩, .pod (some p))
-  else []
+/-- what one declaration does, as a function of the cluster and of the CURRENT ENTRY OF ITS HOST
+only: the new entry, the backend it touches, the tracking calls (in call order) -/
+structure Outcome where
+  host : Host
+  back : Option (String × Touch) := none
+  edges : List (Node × Node) := []
+deriving DecidableEq, Repr, Inhabited
 
-/-- `addBackendWithClass` after the duplicate check: tracking of service/endpoints → host, the
-service and port resolution, `AcquireBackend`, ingress → backend. Returns the new state, the
-reads and (on success) the backend id. -/
-def addBackend (w : World) (d : Decl) (svc port : String) (st : St) :
-    St × List (Node × ObjVal) × Option String :=
+/-- `addBackendWithClass` after the duplicate check: service/endpoints → host are tracked BEFORE
+the service error is returned; then port resolution, `AcquireBackend`, ingress → backend,
+`addEndpoints` (drain-support: every pod matched by the selector is tracked by the backend).
+Returns the tracking calls, the reads and (on success) the backend id. -/
+def addBackend (w : World) (d : Decl) (svc port : String) :
+    List (Node × Node) × List (Node × ObjVal) × Option String :=
   let hN : Node := ⟨.host, d.host⟩
   let sk := d.ing.ns ++ "/" ++ svc
-  let st := (st.trackE ⟨.svc, sk⟩ hN).trackE ⟨.ep, sk⟩ hN
+  let e0 : List (Node × Node) := [(⟨.svc, sk⟩, hN), (⟨.ep, sk⟩, hN)]
   match resolve w d.ing.ns svc port with
-  | .noSvc => (st, [(⟨.svc, sk⟩, .svc none)], none)
-  | .noPort s => (st, [(⟨.svc, sk⟩, .svc (some s))], none)
+  | .noSvc => (e0, [(⟨.svc, sk⟩, .svc none)], none)
+  | .noPort s => (e0, [(⟨.svc, sk⟩, .svc (some s))], none)
   | .ok s target =>
     let id := backID d.ing.ns svc target
-    let st := st.trackE ⟨.ing, d.ing.key⟩ ⟨.back, id⟩
-    let st := trackPods w svc id st
-    (st, [(⟨.svc, sk⟩, .svc (some s)), (⟨.ep, sk⟩, .ep (w.findEp sk))] ++ podReads w svc, some id)
+    let pods := matchingPods w svc
+    (e0 ++ [(⟨.ing, d.ing.key⟩, ⟨.back, id⟩)] ++ pods.map (fun p => (⟨.back, id⟩, ⟨.pod, p.key⟩)),
+     [(⟨.svc, sk⟩, .svc (some s)), (⟨.ep, sk⟩, .ep (w.findEp sk))] ++
+       pods.map (fun p => (⟨.pod, p.key⟩, .pod (some p))),
+     some id)
 
-/-- one declaration of `syncIngressHTTP` -/
-def procDecl (w : World) (st : St) (d : Decl) : St :=
+/-- Revision of the converter code that is modelled:
+  0 = before repair 0a95d71 (a skipped declaration tracks nothing; historical witness)
+  1 = repair 0a95d71 (`trackSkippedService`: ingress → backend it resolves to, else ingress → service)
+  2 = with the follow-up repair (ingress → service always, plus ingress → backend when it resolves) -/
+abbrev Rev := Nat
+
+/-- `trackSkippedService`: a declaration that lost its host/path is linked to the backend it would
+use and/or to its service -/
+def skippedEdges (rev : Rev) (w : World) (d : Decl) (svc port : String) : List (Node × Node) :=
+  let iN : Node := ⟨.ing, d.ing.key⟩
+  let sN : Node := ⟨.svc, d.ing.ns ++ "/" ++ svc⟩
+  match rev with
+  | 0 => []
+  | 1 =>
+    match resolve w d.ing.ns svc port with
+    | .ok _ target => [(iN, ⟨.back, backID d.ing.ns svc target⟩)]
+    | _ => [(iN, sN)]
+  | _ =>
+    match resolve w d.ing.ns svc port with
+    | .ok _ target => [(iN, sN), (iN, ⟨.back, backID d.ing.ns svc target⟩)]
+    | _ => [(iN, sN)]
+
+/-- one declaration of `syncIngressHTTP` in revision `rev` of the code -/
+def outcome (rev : Rev) (w : World) (cur : Option Host) (d : Decl) : Outcome :=
+  let x := cur.getD { name := d.host }
   let iN : Node := ⟨.ing, d.ing.key⟩
   let hN : Node := ⟨.host, d.host⟩
+  let touch (what : String) (reads : List (Node × ObjVal)) : Touch := { ing := d.ing, what := what, reads := reads }
   match d.k with
   | .ruleHost =>
     match d.ing.className with
     | some c =>
-      (((st.trackE ⟨.cls, c⟩ iN).acquireHost d.host).trackE iN hN).touchHost d.host
-        { ing := d.ing, what := "host", reads := [(⟨.cls, c⟩, .cls (w.findCls c))] }
-    | none => ((st.acquireHost d.host).trackE iN hN).touchHost d.host { ing := d.ing, what := "host" }
+      { host := { x with live := true, trace := x.trace ++ [touch "host" [(⟨.cls, c⟩, .cls (w.findCls c))]] },
+        edges := [(⟨.cls, c⟩, iN), (iN, hN)] }
+    | none => { host := { x with live := true, trace := x.trace ++ [touch "host" []] }, edges := [(iN, hN)] }
   | .tlsHost secret =>
-    let st := (st.acquireHost d.host).trackE iN hN
-    if secret = "" then st.touchHost d.host { ing := d.ing, what := "tls-default" }
+    if secret = "" then
+      { host := { x with live := true, trace := x.trace ++ [touch "tls-default" []] }, edges := [(iN, hN)] }
     else
       match secretKey d.ing.ns secret with
-      | none => st.touchHost d.host { ing := d.ing, what := "tls-badname:" ++ secret }
+      | none =>
+        { host := { x with live := true, trace := x.trace ++ [touch ("tls-badname:" ++ secret) []] }, edges := [(iN, hN)] }
       | some k =>
-        (st.trackE iN ⟨.sec, k⟩).touchHost d.host
-          { ing := d.ing, what := "tls:" ++ k, reads := [(⟨.sec, k⟩, .sec (w.findSec k))] }
+        { host := { x with live := true, trace := x.trace ++ [touch ("tls:" ++ k) [(⟨.sec, k⟩, .sec (w.findSec k))]] },
+          edges := [(iN, hN), (iN, ⟨.sec, k⟩)] }
   | .path p =>
     let uri := if p.path = "" then "/" else p.path
     let m := matchOf p.ptype
-    if st.hostHasPath d.host uri m then
-      -- "skipping redeclared path": nothing is tracked
-      st.touchHost d.host { ing := d.ing, what := "skip:" ++ uri ++ ":" ++ m }
+    if x.hasPath uri m then
+      -- "skipping redeclared path"
+      { host := { x with trace := x.trace ++ [touch ("skip:" ++ uri ++ ":" ++ m) []] },
+        edges := skippedEdges rev w d p.svc p.port }
     else
-      match addBackend w d p.svc p.port st with
-      | (st, reads, none) =>
-        st.touchHost d.host { ing := d.ing, what := "nobackend:" ++ uri ++ ":" ++ m, reads := reads }
-      | (st, reads, some id) =>
-        ((st.touchBack id { ing := d.ing, what := "path:" ++ d.host ++ uri ++ ":" ++ m, reads := reads }).addHostPath
-            d.host ⟨uri, m, id⟩).touchHost d.host
-          { ing := d.ing, what := "path:" ++ uri ++ ":" ++ m ++ ":" ++ id, reads := reads }
+      match addBackend w d p.svc p.port with
+      | (edges, reads, none) =>
+        { host := { x with trace := x.trace ++ [touch ("nobackend:" ++ uri ++ ":" ++ m) reads] }, edges := edges }
+      | (edges, reads, some id) =>
+        { host := { x with paths := x.paths ++ [⟨uri, m, id⟩],
+                           trace := x.trace ++ [touch ("path:" ++ uri ++ ":" ++ m ++ ":" ++ id) reads] },
+          back := some (id, touch ("path:" ++ d.host ++ uri ++ ":" ++ m) reads),
+          edges := edges }
   | .defBack svc port =>
-    if st.hostHasPath defaultHost "/" "begin" then
-      -- the loser still tracks the host (a failed default backend leaves no touch: the host content
-      -- does not depend on it; what it read is tracked)
-      st.trackE iN hN
+    if x.hasPath "/" "begin" then
+      -- the loser still tracks the host
+      { host := { x with trace := x.trace ++ [touch "def-loser" []] },
+        edges := (iN, hN) :: skippedEdges rev w d svc port }
     else
-      match addBackend w d svc port st with
-      | (st, _, none) => st.trackE iN ⟨.svc, d.ing.ns ++ "/" ++ svc⟩
-      | (st, reads, some id) =>
-        ((((st.touchBack id { ing := d.ing, what := "path:" ++ defaultHost ++ "/:begin", reads := reads }).acquireHost
-            defaultHost).trackE iN hN).addHostPath defaultHost ⟨"/", "begin", id⟩).touchHost defaultHost
-          { ing := d.ing, what := "def:" ++ id, reads := reads }
+      match addBackend w d svc port with
+      | (edges, reads, none) =>
+        { host := { x with trace := x.trace ++ [touch "def-nobackend" reads] },
+          edges := edges ++ [(iN, ⟨.svc, d.ing.ns ++ "/" ++ svc⟩)] }
+      | (edges, reads, some id) =>
+        { host := { x with live := true, paths := x.paths ++ [⟨"/", "begin", id⟩],
+                           trace := x.trace ++ [touch ("def:" ++ id) reads] },
+          back := some (id, touch ("path:" ++ defaultHost ++ "/:begin") reads),
+          edges := edges ++ [(iN, hN)] }
+
+def trackAll (edges : List (Node × Node)) (t : Tr Node) : Tr Node := edges.foldl (fun t e => track e.1 e.2 t) t
+
+def St.apply (st : St) (o : Outcome) : St :=
+  { tr := trackAll o.edges st.tr,
+    hosts := setHost o.host st.hosts,
+    backs := match o.back with
+      | some (id, t) => addBackTouch id t st.backs
+      | none => st.backs }
+
+def procDecl (rev : Rev) (w : World) (st : St) (d : Decl) : St :=
+  st.apply (outcome rev w (st.findHost d.host) d)
 
 /-- `syncIngress` -/
-def syncIngress (w : World) (st : St) (i : Ingress) : St := (declsOf i).foldl (procDecl w) st
+def syncIngress (rev : Rev) (w : World) (st : St) (i : Ingress) : St := (declsOf i).foldl (procDecl rev w) st
 
 /-- `syncFull` after `ClearLinks` + `haproxy.Clear` -/
-def syncFull (w : World) : St := w.validSorted.foldl (syncIngress w) {}
+def syncFull (rev : Rev) (w : World) : St := w.validSorted.foldl (syncIngress rev w) {}
 
 /-! ## the batch of changes and the partial sync -/
 
@@ -471,24 +504,21 @@ def findLiveBack (w : World) (st : St) (ns svc port : String) : Option String :=
   | .ok _ target => if st.backLive (backID ns svc target) then some (backID ns svc target) else none
   | _ => none
 
-/-- `trackAddedIngress` for one added / updated object -/
-def preTrackIng (w : World) (st : St) (i : Ingress) : St :=
+/-- the tracking calls of `trackAddedIngress` for one added / updated object -/
+def preEdges (w : World) (st : St) (i : Ingress) : List (Node × Node) :=
   let iN : Node := ⟨.ing, i.key⟩
-  let st := match i.defBackend with
-    | some (s, p) =>
-      match findLiveBack w st i.ns s p with
-      | some id => st.trackE iN ⟨.back, id⟩
-      | none => st
-    | none => st
-  let st := if i.defBackend.isSome && st.hostLive defaultHost then st.trackE iN ⟨.host, defaultHost⟩ else st
-  let st := i.tls.foldl (fun st t => t.hosts.foldl (fun st h => st.trackE iN ⟨.host, h⟩) st) st
-  i.rules.foldl (fun st r =>
-    r.paths.foldl (fun st p =>
-      match findLiveBack w st i.ns p.svc p.port with
-      | some id => st.trackE iN ⟨.back, id⟩
-      | none => st) (st.trackE iN ⟨.host, normHost r.host⟩)) st
+  let back (s p : String) : List (Node × Node) :=
+    match findLiveBack w st i.ns s p with
+    | some id => [(iN, ⟨.back, id⟩)]
+    | none => []
+  (match i.defBackend with
+    | some (s, p) => back s p ++ (if st.hostLive defaultHost then [(iN, ⟨.host, defaultHost⟩)] else [])
+    | none => [])
+  ++ i.tls.flatMap (fun t => t.hosts.map fun h => (iN, ⟨.host, h⟩))
+  ++ i.rules.flatMap (fun r => (iN, ⟨.host, normHost r.host⟩) :: r.paths.flatMap fun p => back p.svc p.port)
 
-def preTrack (w : World) (b : Batch) (st : St) : St := (b.add ++ b.upd).foldl (preTrackIng w) st
+def preTrack (w : World) (b : Batch) (st : St) : St :=
+  { st with tr := trackAll ((b.add ++ b.upd).flatMap (preEdges w st)) st.tr }
 
 def namesOf (k : Kind) (l : List Node) : List String := (l.filter (·.kind = k)).map (·.name)
 
@@ -496,41 +526,44 @@ def namesOf (k : Kind) (l : List Node) : List String := (l.filter (·.kind = k))
 def resyncKeys (b : Batch) (dirtyIngs : List String) : List String :=
   (dirtyIngs.filter (· ∉ b.del)) ++ b.upd.map (·.key) ++ b.add.map (·.key)
 
-/-- the state after pre-tracking and removal of the dirty items -/
+/-- the state after pre-tracking and removal of the dirty items, and the tracker output -/
 def afterRemove (w : World) (b : Batch) (st : St) : St × List Node :=
   let st1 := preTrack w b st
-  let (out, tr') := queryLinks st1.tr b.links true
-  ({ tr := tr', hosts := st1.hosts.filter (fun h => h.name ∉ namesOf .host out),
+  let out := queryOut st1.tr b.links
+  ({ tr := rest st1.tr b.links, hosts := st1.hosts.filter (fun h => h.name ∉ namesOf .host out),
      backs := st1.backs.filter (fun x => x.id ∉ namesOf .back out) }, out)
 
-/-- `syncPartial`: the re-synced list is read again from the cache (exists ∧ valid) and sorted -/
-def syncPartial (w : World) (b : Batch) (st : St) : St :=
-  let (st2, out) := afterRemove w b st
-  let keys := resyncKeys b (namesOf .ing out)
-  (w.validSorted.filter (·.key ∈ keys)).foldl (syncIngress w) st2
+/-- the ingresses that are re-synced: read again from the cache (exists ∧ valid), sorted -/
+def resyncList (w : World) (b : Batch) (out : List Node) : List Ingress :=
+  w.validSorted.filter (·.key ∈ resyncKeys b (namesOf .ing out))
+
+/-- `syncPartial` -/
+def syncPartial (rev : Rev) (w : World) (b : Batch) (st : St) : St :=
+  let r := afterRemove w b st
+  (resyncList w b r.2).foldl (syncIngress rev w) r.1
 
 /-- one reconciliation on the cluster state `w` (the state at the time of the sync) -/
-def step (w : World) (b : Batch) (st : St) : St :=
-  if b.full then syncFull w else syncPartial w b st
+def step (rev : Rev) (w : World) (b : Batch) (st : St) : St :=
+  if b.full then syncFull rev w else syncPartial rev w b st
 
 /-! ## side conditions (decidable on a run) -/
 
 /-- backends that survive the removal (not dirty) and are touched by a re-synced ingress:
 a *late reference* (root cause of finding 1) -/
-def lateBacks (w : World) (b : Batch) (st : St) : List String :=
+def lateBacks (rev : Rev) (w : World) (b : Batch) (st : St) : List String :=
   let st2 := (afterRemove w b st).1
-  let st3 := syncPartial w b st
+  let st3 := syncPartial rev w b st
   (st2.backs.filter fun x => (st3.findBack x.id).any fun y => y.trace.length ≠ x.trace.length).map (·.id)
 
 /-- the same for hosts -/
-def lateHosts (w : World) (b : Batch) (st : St) : List String :=
+def lateHosts (rev : Rev) (w : World) (b : Batch) (st : St) : List String :=
   let st2 := (afterRemove w b st).1
-  let st3 := syncPartial w b st
+  let st3 := syncPartial rev w b st
   (st2.hosts.filter fun x => (st3.findHost x.name).any fun y => y.trace.length ≠ x.trace.length).map (·.name)
 
 /-- `NoLateRef`: no re-synced ingress touches a surviving item -/
-def noLateRef (w : World) (b : Batch) (st : St) : Bool :=
-  (lateBacks w b st).isEmpty && (lateHosts w b st).isEmpty
+def noLateRef (rev : Rev) (w : World) (b : Batch) (st : St) : Bool :=
+  (lateBacks rev w b st).isEmpty && (lateHosts rev w b st).isEmpty
 
 /-! ## watchers: operations on the cluster and the batch they produce -/
 
@@ -649,14 +682,14 @@ default certificate on the first run, a changed global ConfigMap) -/
 def needFull (c : Ctl) (b : Batch) : Bool :=
   c.first || b.full || (match b.cmNew with | some n => c.cmCur ≠ some n | none => false)
 
-def reconcile (w : World) (b : Batch) (c : Ctl) : Ctl :=
-  { st := step w { b with full := needFull c b } c.st, first := false,
+def reconcile (rev : Rev) (w : World) (b : Batch) (c : Ctl) : Ctl :=
+  { st := step rev w { b with full := needFull c b } c.st, first := false,
     cmCur := match b.cmNew with | some n => some n | none => c.cmCur }
 
 /-- a whole history: batches of operations, one reconciliation after each batch -/
-def runHistory (batches : List (List Op)) : World × Ctl :=
+def runHistory (rev : Rev) (batches : List (List Op)) : World × Ctl :=
   batches.foldl (fun (wc : World × Ctl) ops =>
     let (w', b) := ops.foldl applyOp (wc.1, {})
-    (w', reconcile w' b wc.2)) ({}, {})
+    (w', reconcile rev w' b wc.2)) ({}, {})
 
 end HapVerif.C01
